@@ -166,6 +166,27 @@ func c06Oracle(src string, extra []string, r *Result) {
 		return
 	}
 
+	if ref.OpenComment != nil {
+		// an unclosed block comment: reject, or skip to the end of the text
+		for _, t := range real.Toks {
+			if t.Kind != "EOF" && t.Start.Idx > ref.OpenComment.Idx {
+				r.Outcome("mismatch")
+				failCapped(r, "TOKENS:token-inside-unclosed-block-comment", tags("gap:block-comment"), cas,
+					fmt.Sprintf("`/*` at index %d is never closed, yet %s at index %d is a token\nreal: %s", ref.OpenComment.Idx, t.Kind, t.Start.Idx, tokLine(real.Toks)))
+				return
+			}
+		}
+		if real.Err != "" {
+			n := 0
+			for n < len(ref.Toks) && ref.Toks[n].Kind != "EOF" && ref.Toks[n].End.Idx < ref.OpenComment.Idx {
+				n++
+			}
+			if len(real.Toks) == n && sameTokens(ref.Toks[:n], real.Toks) {
+				r.Outcome("unclosed-comment-rejected")
+				return
+			}
+		}
+	}
 	detail := func() string {
 		d := "reference: " + tokLine(ref.Toks)
 		if ref.Err != nil {
